@@ -8,7 +8,8 @@ come first and the events follow grouped by track in scheduling order; a delayed
 static values are the same for every reader and are held for their stated duration.
 Further strata: harness/c07_midphase.py (callbacks changing the track list during the track phase; theorems C07_merge_cb,
 C07_snapshot_*), harness/c07_multi.py (the same static objects read from several timelines; model Sched/StaticMulti.v),
-harness/c07_globals.py (globals whose values are patterns; model Sched/GlobalsPat.v).  harness/c07_coq.py: evaluation of the
+harness/c07_globals.py (globals whose values are patterns; model Sched/GlobalsPat.v), harness/c07_notation.py (tracks written
+in string shorthand; model Sched/NotationTracks.v).  harness/c07_coq.py: evaluation of the
 scheduler terms with shared literals (one unit grid per description)."""
 from common import *
 import sched_common as S
@@ -16,6 +17,7 @@ import sched_gen as G
 import c07_multi as M
 import c07_midphase as MP
 import c07_globals as GP
+import c07_notation as NT
 import c07_coq as Q
 from fractions import Fraction as F
 from math import ceil
@@ -24,7 +26,7 @@ import itertools
 PROP = "C07"
 META = {
  "engine": "S-scheduler",
- "text": "Coq theorems (Props/C07.v) about the executable model of Timeline.tick/Track.tick (Sched/Model.v) and of PStaticPattern/PCurrentTime/Globals (Sched/Static.v). Phase order: for every state the calls of one tick are (note-offs of all tracks, in track order) ++ (calls of the due actions, in request order) ++ (events of each track, in scheduling order); legato corollary. MERGE THEOREM, for ALL histories of ticks/schedule/update/unschedule/clear/mute/unmute/nudge/defaults, all numbers of tracks and ticks (induction over the history, simulation relation preserved by every phase of the tick incl. ticks on which a neighbour finishes, raises in tolerant mode, or is removed): the sub-sequence of calls owned by track i (by channel / callback id, ownership stated as a hypothesis on the streams) in every tick of the joint run equals the calls of that tick in the solo run in which only track i was scheduled by the same call at the same time, and the track's record and pending actions are equal in both runs. Static state: reads of a static pattern between two element boundaries return one value however many reads happen, all readers at one time see one value, a value is held for at least its duration, PGlobals returns the last value set or the default, PCurrentTime the timeline position rounded as the code rounds. Callbacks that perform timeline operations (the track list changes in the middle of the track phase): the turns are taken over the snapshot of the ids - only those ids, all of them, in order, a removed track makes no call - for every configuration; and the merge theorem holds with cb_noops weakened to: callbacks of the observed track act on it only, all other callbacks (unschedule / mute / unmute / nudge / update of other tracks, unnamed schedule calls on other channels) do not aim at it (C07_merge_cb, induction over histories; simulation preserved by ticks in which neighbours leave or arrive before or after the track's position). Globals whose values are patterns (Sched/GlobalsPat.v): for every program of sets and reads a read returns the default, the number or the next value of the pattern object that the LATEST set stored for the name, whatever was stored before; a set always takes effect; a shared pattern object stands at start + the number of reads that reached it. Several timelines in one process reading the same static / current-time / globals objects (Sched/StaticMulti.v): every read is served with the position of the reader's own timeline, for every program; a program over several timelines is a Static.v program; a second performance starts from exactly the pattern state, globals and per-timeline positions the first one left. Tied to /repo on every run by joint+solo executions on the real Timeline (recording device) compared call by call with the model in Coq, by an independent projection/phase-order oracle, by a mid-phase stratum (callbacks unscheduling / muting neighbours before or after the caller, stopping themselves, scheduling new tracks, on ticks on which neighbours are due; closed-form oracle; instances of C07_merge_cb checked in Coq) by a pattern-valued-globals stratum (numbers and pattern objects set over each other by setter tracks, read by several tracks; oracle + comparison with Sched/GlobalsPat.v) and by a several-timelines stratum (event dictionaries built once, scheduled on 2-3 timelines sequentially / alternately; oracle + comparison with Sched/StaticMulti.v).",
+ "text": "Coq theorems (Props/C07.v) about the executable model of Timeline.tick/Track.tick (Sched/Model.v) and of PStaticPattern/PCurrentTime/Globals (Sched/Static.v). Phase order: for every state the calls of one tick are (note-offs of all tracks, in track order) ++ (calls of the due actions, in request order) ++ (events of each track, in scheduling order); legato corollary. MERGE THEOREM, for ALL histories of ticks/schedule/update/unschedule/clear/mute/unmute/nudge/defaults, all numbers of tracks and ticks (induction over the history, simulation relation preserved by every phase of the tick incl. ticks on which a neighbour finishes, raises in tolerant mode, or is removed): the sub-sequence of calls owned by track i (by channel / callback id, ownership stated as a hypothesis on the streams) in every tick of the joint run equals the calls of that tick in the solo run in which only track i was scheduled by the same call at the same time, and the track's record and pending actions are equal in both runs. Static state: reads of a static pattern between two element boundaries return one value however many reads happen, all readers at one time see one value, a value is held for at least its duration, PGlobals returns the last value set or the default, PCurrentTime the timeline position rounded as the code rounds. Callbacks that perform timeline operations (the track list changes in the middle of the track phase): the turns are taken over the snapshot of the ids - only those ids, all of them, in order, a removed track makes no call - for every configuration; and the merge theorem holds with cb_noops weakened to: callbacks of the observed track act on it only, all other callbacks (unschedule / mute / unmute / nudge / update of other tracks, unnamed schedule calls on other channels) do not aim at it (C07_merge_cb, induction over histories; simulation preserved by ticks in which neighbours leave or arrive before or after the track's position). Tracks written in string shorthand (Sched/NotationTracks.v = the notation parser and PSequence-tree models of C20 composed with the scheduler): Pattern.pattern(str) builds a new object at every call, so after any program an object stands where its own asks put it and yields the values of its own sequence, an object built later starts at the beginning, two objects built from equal strings yield equal values; the stream of a track scheduled from notation strings is a function of its own strings, stays on its channel, and the merge theorem applies to two tracks written with the same strings (C07_notation_*). Globals whose values are patterns (Sched/GlobalsPat.v): for every program of sets and reads a read returns the default, the number or the next value of the pattern object that the LATEST set stored for the name, whatever was stored before; a set always takes effect; a shared pattern object stands at start + the number of reads that reached it. Several timelines in one process reading the same static / current-time / globals objects (Sched/StaticMulti.v): every read is served with the position of the reader's own timeline, for every program; a program over several timelines is a Static.v program; a second performance starts from exactly the pattern state, globals and per-timeline positions the first one left. Tied to /repo on every run by joint+solo executions on the real Timeline (recording device) compared call by call with the model in Coq, by an independent projection/phase-order oracle, by a mid-phase stratum (callbacks unscheduling / muting neighbours before or after the caller, stopping themselves, scheduling new tracks, on ticks on which neighbours are due; closed-form oracle; instances of C07_merge_cb checked in Coq) by a string-shorthand stratum (note / duration / amplitude as notation strings with nested groups, the same strings on several tracks, scheduled again later and on further timelines of the process; closed-form oracle; streams computed from the strings by the parser model inside Coq), by a pattern-valued-globals stratum (numbers and pattern objects set over each other by setter tracks, read by several tracks; oracle + comparison with Sched/GlobalsPat.v) and by a several-timelines stratum (event dictionaries built once, scheduled on 2-3 timelines sequentially / alternately; oracle + comparison with Sched/StaticMulti.v).",
  "note": "Trusted: Coq kernel+VM; the Python harness. Modelled, not verified: float arithmetic (exact integer units in the model); how a static pattern finds its timeline (inspect.stack) - the model takes `now` as an argument, validated by the correspondence only. The merge theorem excludes, as the property does, deliberate coupling: device faults (shared call counter), callbacks that perform timeline operations AIMED AT THE OBSERVED TRACK from another track (C07_merge_cb covers all others; a victim's behaviour is judged by the mid-phase oracle and the model comparison), clear / set-defaults / named schedule inside callbacks, named replace, max_tracks, stop_when_done (a solo timeline would stop earlier), and aborted ticks (intolerant exceptions / out-of-fuel are hypotheses `all_ticks_ok`).",
 }
 
@@ -595,6 +597,8 @@ def check(run):
     part("several-timelines", M.multi_part, 120 if quick else 1500)
     # globals whose values are patterns, set again over existing values, read by several tracks
     part("pattern-globals", GP.globals_part, 120 if quick else 1500)
+    # tracks whose event values are notation strings (Pattern.pattern / parse_notation), the same strings on several tracks / timelines
+    part("string-shorthand", NT.notation_part, 80 if quick else 1000)
     run.cov["rule"] = ("one case = one run on isobar's Timeline: a joint run of 1-6 tracks on distinct channels (random offsets/durations on a "
                        "common grid so that events coincide, scheduling-order permutations for <= 4 tracks, neighbours that finish / raise in "
                        "tolerant mode / are unscheduled) or the solo run of one of its tracks; non-trivial = joint run of >= 2 tracks with at "
@@ -604,6 +608,8 @@ def check(run):
 def replay(run, doc):
     if doc.get("part") == "multi":
         return M.replay_multi(run, doc)
+    if doc.get("part") == "notation":
+        return NT.replay_notation(run, doc)
     if doc.get("part") == "gpat":
         return GP.replay_gpat(run, doc)
     if doc.get("part") == "midphase":
